@@ -13,7 +13,9 @@ NoRef   == "nil"
 MaxChar == 65534          \* 0xFFFE
 
 VARIABLE regs             \* sequence of <<lo, hi, ref>>, oldest first
-Covers(r, ch) == r[1] <= ch /\ ch <= r[2] /\ ch <= MaxChar /\ ch >= 0
+\* a registration that starts at or below U+FFFE reaches at most U+FFFE (the configured range of the tokenizers);
+\* one that lies entirely above it is kept as given
+Covers(r, ch) == r[1] <= ch /\ ch <= r[2] /\ ch >= 0 /\ (r[1] <= MaxChar => ch <= MaxChar)
 SetMax(S) == CHOOSE x \in S : \A y \in S : y <= x
 LookupIn(rs, ch) ==
   LET idx == {i \in 1 .. Len(rs) : Covers(rs[i], ch)}
